@@ -1,27 +1,73 @@
-import Eru.CpuMem.ProofsMem
+import Eru.CpuMem.ProofsSpec
 /-
 C04 — allocations never overcommit a node's CPU cores or memory.
 Property theorems only; helper lemmas live in Eru/CpuMem/Proofs*.lean.
+
+`WF info` says the node's maps are Go maps (distinct keys); `order` is the order in which Go's map
+iteration visits the NUMA nodes (distinct).  No validity of the node state is needed: cores whose
+usage exceeds capacity are simply never planned.
 -/
 namespace Eru.Props.C04
 open Eru Eru.CpuMem
 
-/-- **plans_fit_memory**: for every node state, request, share base, max-share, affinity map and
-    NUMA visiting order, the plans returned by `GetCPUPlans` together need at most the node's free
-    memory (`#plans · memRequest ≤ capacity.mem − usage.mem`, or there are no plans). -/
+/-- the node's CPU map and NUMA map are maps (distinct keys) -/
+abbrev WF (info : NodeInfo) : Prop := info.cap.cpuMap.keys.Nodup ∧ (info.cap.numa.map (·.1)).Nodup
+
+def exampleNode : NodeInfo :=
+  { cap := { cpuMap := [("0",100),("1",100),("2",200),("3",150)], mem := 100, numaMem := [("n0",50),("n1",50)],
+             numa := [("0","n0"),("1","n0"),("2","n1"),("3","n1")] },
+    use := { cpuMap := [("0",30),("3",150)], mem := 40, numaMem := [("n0",10),("n1",0)] } }
+example : WF exampleNode ∧ exampleNode.validate = true ∧ ["n1", "n0"].Nodup := by decide
+
+/-- **plans_fit_cores**: for every node state, request, share base ≥ 1, max-share, affinity map and
+    NUMA visiting order, the plans returned by `GetCPUPlans` together give no core more pieces than it
+    has free (`Σ_plans plan[id] ≤ max(capacity[id] − usage[id], 0)`), and the decidable clause the
+    oracle evaluates (`fitCores`: every planned core exists, gets a positive amount, sums fit) holds. -/
+theorem plans_fit_cores (info : NodeInfo) (origin : CpuMap) (B maxShare : Int) (req : Req)
+    (order : List String) (ps : List CpuPlan) (hB : 1 ≤ B) (hwf : WF info) (hord : order.Nodup)
+    (h : getCPUPlans info origin B maxShare req order = .ok ps) :
+    (∀ id, usedBy (ps.map (·.cpuMap)) id ≤ max (info.available.cpuMap.get id) 0) ∧
+    fitCores info.available.cpuMap (ps.map (·.cpuMap)) = true := by
+  obtain ⟨ps', h', hu, hok⟩ := getCPUPlans_spec info origin B hB maxShare req order hord hwf.2 hwf.1
+  rw [h] at h'; cases h'
+  refine ⟨fun id => (hu id).2, ?_⟩
+  have hpn := piecesRequest_nonneg req B
+  apply fitCores_of_bound _ _ B hB ((piecesRequest req B).tdiv B).toNat ((piecesRequest req B).tmod B)
+  · rw [Int.tmod_eq_emod_of_nonneg hpn]; exact Int.emod_nonneg _ (by omega)
+  · intro p hp
+    obtain ⟨pl, hpl, rfl⟩ := List.mem_map.mp hp
+    exact (hok pl hpl).1
+  · exact fun id => (hu id).2
+
+/-- **numa_plans_local** (cores): a plan tagged with NUMA node `n` uses only cores that the node's
+    NUMA map assigns to `n`. -/
+theorem numa_plans_local (info : NodeInfo) (origin : CpuMap) (B maxShare : Int) (req : Req)
+    (order : List String) (ps : List CpuPlan) (hB : 1 ≤ B) (hwf : WF info) (hord : order.Nodup)
+    (h : getCPUPlans info origin B maxShare req order = .ok ps) :
+    ∀ pl ∈ ps, pl.numa ≠ "" → ∀ k ∈ pl.cpuMap.keys, numaOf info.cap.numa k = some pl.numa := by
+  obtain ⟨ps', h', _, hok⟩ := getCPUPlans_spec info origin B hB maxShare req order hord hwf.2 hwf.1
+  rw [h] at h'; cases h'
+  exact fun pl hpl => (hok pl hpl).2
+
+/-- **plans_fit_memory**: the plans returned by `GetCPUPlans` together need at most the node's free
+    memory (`#plans · memRequest ≤ capacity.mem − usage.mem`, or there are no plans) — for all inputs. -/
 theorem plans_fit_memory (info : NodeInfo) (origin : CpuMap) (B maxShare : Int) (req : Req)
     (order : List String) (ps : List CpuPlan)
     (h : getCPUPlans info origin B maxShare req order = .ok ps) :
     fitMemory info.available.mem req.mem ps.length = true :=
   getCPUPlans_fit_memory info origin B maxShare req order ps h
 
-/-- the D6 witness (node memory 100 with 90 used, NUMA memory 50/50, request 0.5 core / 20 memory; fragment requests avoid the heap, whose
-    well-founded `up`/`down` the kernel does not unfold):
-    the repaired scheduler returns no plan instead of four -/
+/-- the D6 witness (node memory 100 with 90 used, NUMA memory 50/50, request 0.5 core / 20 memory;
+    fragment requests avoid the heap, whose well-founded `up`/`down` the kernel does not unfold):
+    the repaired scheduler returns no plan instead of overcommitting memory -/
 example : getCPUPlans
     { cap := { cpuMap := [("0",100),("1",100),("2",100),("3",100)], mem := 100, numaMem := [("n0",50),("n1",50)],
                numa := [("0","n0"),("1","n0"),("2","n1"),("3","n1")] },
       use := { cpuMap := [], mem := 90, numaMem := [("n0",0),("n1",0)] } }
     [] 100 (-1) { bind := true, cpuNum := 500, mem := 20 } ["n0", "n1"] = .ok [] := by decide
+
+/-- a non-trivial instance: 0.5 core / 10 memory on `exampleNode` yields NUMA-local and cross plans -/
+example : (match getCPUPlans exampleNode [] 100 (-1) { bind := true, cpuNum := 500, mem := 10 } ["n1", "n0"] with
+    | .ok ps => ps.length | _ => 0) = 6 := by decide
 
 end Eru.Props.C04
